@@ -41,5 +41,9 @@ check("C06", "exploration",
       "Online invariants at every input wait (cursor within the buffer, on a character in Vi command mode, selection within the buffer), acceptance equality (returned line == buffer observed before a plain accept), and before/after text equality for 58 (command, keymap) pairs documented as pure movements/copies invoked by name with numeric arguments from history-recalled buffers.",
       TCB, "runtime monitoring: state invariants at hooked wait points + before/after equality", "DESIGN.md 5 C06")
 
+check("C07", "exploration",
+      "Monitors over the per-step buffer snapshots of one call: every buffer produced by undo was shown before; a tail of undos reaches the initial content; n effective undos + n redos restore the text; redo after a new edit changes nothing. Exhaustive over all operation sequences of length <= 4 (quick) / <= 5 (thorough) on an 11-operation Emacs alphabet plus random sequences up to 40 operations in Emacs and Vi (with history walks).",
+      TCB, "runtime monitoring: trace checkers (membership, inverse laws) over snapshot sequences", "DESIGN.md 5 C07")
+
 for _p in ["C03","C04","C05","C06","C07","C08","C09","C10","C11","C12","C13","C14","C15","C16","C17","C18","C19","C20"]:
     NOT_YET[_p] = "check under construction in this session (runtime monitor designed in DESIGN.md section 5, not yet registered)"
